@@ -2,7 +2,7 @@
     interpreter) and renders the observations.  Used by the extracted
     driver and by the in-Coq [vm_compute] cross-check; no theorem depends
     on this file. *)
-From WalModel Require Export Proto Reader.
+From WalModel Require Export Proto Reader Wawk.
 
 Definition PF : nat := Z.to_nat 100000.
 Definition init_result : res unit := wal_init.
@@ -214,6 +214,30 @@ Definition run_cmd (toks : list string) (st : state) : string * option state :=
           | RUnm => ("unm 00", None)
           end
       | None => ("bad", None)
+      end
+  | "wawk" :: t :: r =>
+      (* t: trace path; r: the parsed statements ( [conds] action ) ... as one list *)
+      match str_arg t, parse_val PF r with
+      | Some path, Some (VList _ items, _) =>
+          let stmts := map_opt (fun it => match it with
+                                          | VList _ [VList _ conds; action] => Some (conds, action)
+                                          | _ => None
+                                          end) items in
+          match stmts with
+          | None => ("bad", None)
+          | Some p =>
+              match wawk_emit p with
+              | None => ("unm 03", None)
+              | Some forms =>
+                  match wawk_run path p st with
+                  | Ok _ st' => ("ok S" ++ hex_of_string (output_of st') ++ " o-same " ++ print_val [] 200 (PL forms), Some st')
+                  | Er e st' => ("err " ++ err_token e ++ " out=" ++ hex_of_string (output_of st'), None)
+                  | Unm w => ("unm " ++ hex_of_string w, None)
+                  | Fuel => ("fuel", None)
+                  end
+              end
+          end
+      | _, _ => ("bad", None)
       end
   | "csv" :: t :: _ =>
       match str_arg t with
